@@ -102,8 +102,12 @@ def probe_src(ws, names, rng, local_defs=None, kinds=None):
             elif k == "kwonly":
                 out.append(f"def test_k{u}(*, {n}):\n    pass\n\n")
             elif k == "usefixtures":
-                if rng.random() < 0.3:
+                r_ = rng.random()
+                if r_ < 0.3:
                     out.append(f'@pytest.mark.usefixtures(\n    "{n}",\n)\ndef test_u{u}():\n    pass\n\n')
+                elif r_ < 0.45:
+                    # one name twice on one line: two usages that differ in the column only
+                    out.append(f'@pytest.mark.usefixtures("{n}", "{n}")\ndef test_u{u}():\n    pass\n\n')
                 else:
                     out.append(f'@pytest.mark.usefixtures("{n}")\ndef test_u{u}():\n    pass\n\n')
             elif k == "class_mark":
